@@ -3682,6 +3682,15 @@ impl<'store> QueryIter<'store> {
                 let key = store.key(set, key).or_fail()?;
                 Box::new(iter.filter_key_value_in_metadata(&key, operator.clone()))
             }
+            &Constraint::KeyValue {
+                set,
+                key,
+                ref operator,
+                qualifier: SelectionQualifier::Normal,
+            } => {
+                let key = store.key(set, key).or_fail()?;
+                Box::new(iter.filter_key_value_on_text(&key, operator.clone()))
+            }
             &Constraint::KeyValueVariable(varname, ref operator, SelectionQualifier::Normal) => {
                 let key = self.resolve_keyvar(varname)?;
                 Box::new(iter.filter_key_value_on_text(&key, operator.clone()))
